@@ -127,8 +127,14 @@ pub fn run(path: &str, scheduler: bool) -> Value {
         }
     }
 
+    let mir_text = match guarded(|| compiler.emit_mir(&src)) {
+        Ok(Ok(m)) => json!(format!("{m}")),
+        _ => Value::Null,
+    };
+
     json!({
         "src_path": file.to_string_lossy(),
+        "mir": mir_text,
         "bytecode": bytecode,
         "wasm": wasm,
         "rust": rust,
